@@ -10,7 +10,7 @@ ANCHORS = ["XMLFileWriter.write_to_file", "float_to_str", "StateFactory.create_f
            "LaneletFactory.create_from_xml_node", "TrafficSignFactory.create_from_xml_node",
            "TrafficLightFactory.create_from_xml_node", "IntersectionFactory.create_from_xml_node",
            "DynamicObstacleFactory.create_from_xml_node", "GoalRegionFactory.create_from_xml_node"]
-REQUIRED = ["coarse-writer-writes-first", "environment.time-24:00", "geo-transformation.non-neutral-parameters=s", "geo-transformation.non-neutral-parameters=r",
+REQUIRED = ["retry-after-failed-write", "coarse-writer-writes-first", "environment.time-24:00", "geo-transformation.non-neutral-parameters=s", "geo-transformation.non-neutral-parameters=r",
             "geo-transformation.non-neutral-parameters=", "contract.xml.write_to_file", "role.static", "role.dynamic", "role.phantom", "role.environment",
             "prediction.trajectory", "prediction.set", "shape.rectangle", "shape.circle", "shape.polygon", "shape.group",
             "value.exact", "value.interval", "initial.position.region", "sign.virtual.True", "sign.virtual.False",
